@@ -449,6 +449,12 @@ def check_walk(tier, seed, res, work, stats):
                 res.violations.append(dict(property='C08', what='file discovery does not yield exactly the .java files below readable directories',
                                            missing=[x for x in exp if x not in got][:3], extra=[x for x in got if x not in exp][:3], tree=lines[:60],
                                            how='graph.getFiles on the directory tree (as a non-root user)'))
+        elif root_readable and impl.strip() == '':
+            # the non-root child could not even start in this scratch location (e.g. a scratch directory below a
+            # directory uid 65534 may not enter): nothing was observed
+            stats['walk_unobservable'] += 1
+            if not any('non-root' in str(n_) for n_ in res.notes):
+                res.notes.append('file discovery as a non-root user could not be observed in this scratch location')
         elif root_readable:
             res.violations.append(dict(property='C08', what='file discovery failed although the root is readable', tree=lines[:60], detail=impl[:200]))
         subprocess.run(['chmod', '-R', 'u+rwx', root], capture_output=True)
